@@ -203,6 +203,26 @@ def run(ctx, rep):
                "self.%s.clear() lies on every normal path after the flag is set" % fld if okt else
                "closing does not release self.%s (objects held for the peer / pending callbacks survive the connection)" % fld,
                ctx.loc(nodes[0]) if nodes else fc.loc, witness=ctx.path(bad) if bad else None)
+    # the last traceback kept for diagnostics references the frames of the failed request - and through them the objects lent
+    # to the peer: it is dropped with the tables
+    tb_fields = [fld_ for fld_ in ("_last_traceback",) if any(
+        isinstance(n_, ast.Attribute) and n_.attr == fld_ and isinstance(n_.ctx, ast.Store)
+        for m_ in ctx.cls(K.CONN).methods.values() if m_.name != "_cleanup" for n_ in A.walk(m_.node))]
+    for fld_ in tb_fields:
+        resets = [n for n in gc.live if n.kind == "stmt" and isinstance(n.ast, ast.Assign) and any(
+            K.self_attr(t, fld_) for t in n.ast.targets) and isinstance(n.ast.value, ast.Constant) and n.ast.value.value is None]
+        bad_tb = None
+        if resets and setf:
+            for st in [x for x, l in setf[0].succ if l != "exc"]:
+                p_ = Q.find_path(st, [gc.exit], avoid=resets, labels=("next", "true", "false"), skip_first=False)
+                if p_:
+                    bad_tb = p_
+        ok_tb = bool(resets) and bad_tb is None
+        rep.ob("R11.2", "_cleanup: self.%s is dropped" % fld_, ok_tb,
+               "self.%s = None lies on every normal path after the flag is set" % fld_ if ok_tb else
+               "a closed connection keeps the traceback of the last failed request: its frames hold the objects that were lent to "
+               "the peer (and the service), which therefore survive the connection for as long as anybody holds the Connection object",
+               ctx.loc(resets[0]) if resets else fc.loc, witness=ctx.path(bad_tb) if bad_tb else None)
     # order: channel closed before the hook (the hook must not perform IO on a live channel)
     if chan_close and hook:
         oko = any(c.id in domc[hook[0].id] for c in chan_close)
